@@ -145,6 +145,9 @@ func (tr *tracer) evalBool(info *types.Info, e ast.Expr, st *pathState) []boolCo
 		if st.known[x.Name] {
 			return []boolCont{{st, st.store[x.Name] != 0}}
 		}
+		if a, ok := st.alias[x.Name]; ok {
+			return tr.atom(a, st, true)
+		}
 	case *ast.UnaryExpr:
 		if x.Op == token.NOT {
 			out := tr.evalBool(info, x.X, st)
@@ -538,8 +541,21 @@ func (tr *tracer) execStmt(fi *FuncInfo, s ast.Stmt, st *pathState) []*pathState
 		}
 		return out
 	case *ast.TypeSwitchStmt:
-		tr.unsupported(x, "type switch")
-		return []*pathState{st}
+		// fork per clause (the dynamic type is an unknown); clauses perform no reads of their own condition
+		var out []*pathState
+		hasDefault := false
+		for _, cl := range x.Body.List {
+			cc := cl.(*ast.CaseClause)
+			if cc.List == nil {
+				hasDefault = true
+			}
+			out = append(out, tr.execList(fi, cc.Body, []*pathState{st.clone()})...)
+		}
+		if !hasDefault {
+			out = append(out, st)
+		}
+		// paths that performed no primitive in any clause are indistinguishable: keep one
+		return dedupStates(out)
 	case *ast.DeferStmt:
 		return []*pathState{st}
 	case *ast.BranchStmt:
@@ -552,6 +568,7 @@ func (tr *tracer) execStmt(fi *FuncInfo, s ast.Stmt, st *pathState) []*pathState
 }
 
 func (tr *tracer) assign(info *types.Info, lhs ast.Expr, rhs ast.Expr, tok token.Token, st *pathState) {
+	_ = tr
 	id, ok := ast.Unparen(lhs).(*ast.Ident)
 	if !ok {
 		return
@@ -572,6 +589,18 @@ func (tr *tracer) assign(info *types.Info, lhs ast.Expr, rhs ast.Expr, tok token
 		delete(st.alias, id.Name)
 		if c, ok := rhs.(*ast.CallExpr); ok && exprStr(c.Fun) == "len" && len(c.Args) == 1 {
 			st.alias[id.Name] = st.resolve(normAtom(rhs))
+		}
+		// a boolean local that names a condition (globalSpec := flags&X == X): alias it to that condition's atom
+		if b, ok := rhs.(*ast.BinaryExpr); ok {
+			if t := info.TypeOf(rhs); t != nil {
+				if bt, ok := t.Underlying().(*types.Basic); ok && bt.Info()&types.IsBoolean != 0 {
+					if bit, pol, ok := tr.bitTest(info, b, st); ok && bit != "" && pol {
+						st.alias[id.Name] = bit
+					} else {
+						st.alias[id.Name] = st.resolve(normAtom(rhs))
+					}
+				}
+			}
 		}
 	case token.OR_ASSIGN:
 		if k, ok := constInt(info, rhs); ok && st.known[id.Name] {
@@ -737,4 +766,18 @@ func assumeStr(st *pathState) string {
 	}
 	sort.Strings(ks)
 	return fmt.Sprintf("v%d %s", st.version, strings.Join(ks, " "))
+}
+
+// dedupStates drops states that are identical in trace, assumptions and termination.
+func dedupStates(in []*pathState) []*pathState {
+	seen := map[string]bool{}
+	var out []*pathState
+	for _, s := range in {
+		k := assumeStr(s) + "|" + traceStr(s.trace) + "|" + s.done
+		if !seen[k] {
+			seen[k] = true
+			out = append(out, s)
+		}
+	}
+	return out
 }
